@@ -113,6 +113,9 @@ func (c *Client) handshake(ctx context.Context) error {
 
 	if err := wg.Wait(); err != nil {
 		if ctxErr := ctx.Err(); ctxErr != nil {
+			// Watchdog goroutine exits without closing connection if it sees
+			// finished handshake first, so closing here too.
+			_ = c.conn.Close()
 			// Parent context is canceled, propagating error to allow error
 			// traversal, like errors.Is(err, context.Canceled) assertion.
 			return errors.Wrap(multierr.Append(err, ctxErr), "parent context done")
